@@ -99,7 +99,7 @@ def write_replay(pid, spec_dict, failure, idx):
 def replay_file(path, timeout=300):
     """re-run a counterexample on the real code in a fresh process; returns (reproduced: bool|None, text)"""
     env = dict(os.environ)
-    env['PYTHONPATH'] = '/repo:' + VERIF
+    env['PYTHONPATH'] = os.environ.get('VERIF_REPO', '/repo') + ':' + VERIF
     p = subprocess.run([sys.executable, '-m', 'vf.replay', path], cwd=VERIF, env=env, capture_output=True, text=True,
                        timeout=timeout)
     out = p.stdout.strip().splitlines()
